@@ -12,7 +12,8 @@ RULE = (
     "tetrahedra / hand-assembled mixed polygons (quads, triangles, hexagons with hanging nodes; loop-consistent "
     "or index-oriented incidence, the latter exercising the convex-cell fallback of _compute_geometry_2d) and "
     "their extrusion to polyhedra / gmsh simplices (thorough); interior-node perturbation, affine maps (3-d), "
-    "rigid embedding of 1-d/2-d grids in 3-d, global length scales 1e-4..1e3 (units). Oracle: V>0, sum V = domain measure known by construction, "
+    "rigid embedding of 1-d/2-d grids in 3-d, global length scales 1e-4..1e3 (units); in 5 cases of 8 the nodes are then dilated in place by 1 + eps "
+    "(eps 1e-7..3e-2) and the geometry is computed a second time on the same object, with the same oracle for the dilated grid. Oracle: V>0, sum V = domain measure known by construction, "
     "|n_f| = A_f, outward normals, and the divergence-theorem identities sum_f s n_f = 0, "
     "sum_f s (x_f-x0).n_f = d V, sum_f s ((x_f-x0).n_f)(x_f-x0) = (d+1) V (x_c-x0), x0 a node of the grid; "
     "rtol 1e-9 of the terms' magnitude. Non-trivial = dim>=2 and (perturbed | affine | rigid motion | mixed "
@@ -28,12 +29,20 @@ LEVEL_NOTE = ("Grids have at most a few hundred cells and planar faces; toleranc
               "Finds violations, does not prove absence.")
 DESIGN_REF = "DESIGN.md section 4, C19"
 ASSUMPTIONS = ["faces are planar (all generated families)", "cells convex where the incidence is not loop-oriented"]
-REQUIRED = {"dim1": 0.1, "dim2": 0.1, "dim3": 0.1, "perturbed": 0.05, "embedded": 0.1, "kind-poly": 0.02,
+REQUIRED = {"recomputed-small": 0.2, "recomputed-large": 0.1, "dim1": 0.1, "dim2": 0.1, "dim3": 0.1, "perturbed": 0.05, "embedded": 0.1, "kind-poly": 0.02,
             "kind-polyx": 0.01, "kind-tet": 0.02, "kind-tri": 0.02}
 
 
+RECOMPUTE = [None, None, None, 1e-7, 1e-6, 4e-6, 1e-4, 3e-2]
+
+
 def strategy(tier):
-    return grid_spec(gmsh=(tier == "thorough"), scales=True)
+    # in 5 cases of 8 the geometry is computed a second time on the same grid object after a dilation of its nodes
+    # by a factor 1 + eps about a point of the grid (a second compute_geometry must not remember the first)
+    from hypothesis import strategies as st
+
+    g = grid_spec(gmsh=(tier == "thorough"), scales=True)
+    return st.tuples(g, st.sampled_from(RECOMPUTE)).map(lambda t: dict(t[0], recompute=t[1]) if t[1] else t[0])
 
 
 def check_geometry(g, measure, tag_prefix=""):
@@ -87,5 +96,12 @@ def check(spec):
     meta = grid_meta(spec)
     check_geometry(g, meta["measure"])
     labs = meta["labels"]
+    eps = spec.get("recompute")
+    if eps:
+        c = g.nodes[:, :1].copy()
+        g.nodes[:] = c + (g.nodes - c) * (1.0 + eps)  # in place, as a deforming-mesh user would
+        g.compute_geometry()
+        check_geometry(g, None if meta["measure"] is None else meta["measure"] * (1.0 + eps) ** g.dim, "recomputed-")
+        labs = labs + ["recomputed", "recomputed-small" if eps <= 1e-5 else "recomputed-large"]
     nontrivial = spec["dim"] >= 2 and any(l in labs for l in ("perturbed", "affine", "embedded", "rotated", "poly-mixed"))
     return {"labels": labs, "nontrivial": nontrivial}
